@@ -1,6 +1,6 @@
 (* C11 — MINRES solves all shifted systems; contour quadrature gives the matrix root.
    Proof obligations (statements only; proofs are in ProofsRefine.v / ProofsAny.v / ProofsExact.v /
-   ProofsResidual.v / ProofsLanczos.v / ProofsMinimal.v / ProofsCIQ.v).  Everything is about the transcription coq/C11/Model.v of
+   ProofsResidual.v / ProofsCIQ.v).  Everything is about the transcription coq/C11/Model.v of
    linear_operator/utils/minres.py, utils/contour_integral_quad.py, functions/_sqrt_inv_matmul.py.
 
    Quantification: every theorem holds for ALL sizes n, ALL numbers of columns / batch members, ALL
@@ -9,15 +9,11 @@
    arbitrary real closed field (exact arithmetic, x/0 = 0).  `Section ContourQuadrature`: MathComp
    matrices over an arbitrary field.
 
-   NOT PROVED (DESIGN.md section 6; the property is claimed PARTIAL): that the MINRES iterates CONVERGE to the
-   solutions of the shifted systems.  Proved (Section Orthogonality, exact arithmetic, symmetric matrix, no
-   preconditioner, no Lanczos breakdown so far): the Lanczos vectors are orthonormal, the scale term is the true
-   residual norm and the iterate is the minimal-residual iterate over the Krylov space; what happens at an exact
-   breakdown.  Missing: that this minimum is small (polynomial bound / lower bound on dg0 at the breakdown step), the
-   clamp being active without exact breakdown, preconditioned runs, rounding; and the accuracy of the
-   elliptic-function quadrature rule.  Exact solves and the scalar quadrature rule enter the CIQ theorems as explicit
-   hypotheses (`exact solves`, `scalar rule`) and are checked numerically on the implementation by harness/c11.py
-   (support only). *)
+   NOT PROVED (DESIGN.md section 6; the property is claimed PARTIAL): that the MINRES iterates converge to
+   the solutions of the shifted systems (Paige-Saunders: needs orthogonality of the Lanczos vectors and the
+   minimal-residual characterisation) and the accuracy of the elliptic-function quadrature rule.  Both enter
+   the CIQ theorems as explicit hypotheses (`exact solves`, `scalar rule`) and are checked numerically on
+   the implementation by harness/c11.py (support only). *)
 From mathcomp Require Import all_ssreflect all_algebra.
 Require Import C11.Model C11.ProofsRefine C11.ProofsAny C11.ProofsExact C11.ProofsResidual C11.ProofsLanczos C11.ProofsMinimal C11.ProofsCIQ.
 Set Implicit Arguments.
@@ -233,7 +229,7 @@ Proof. move=> np he ht hl hq hj hi hnz; exact: (minres_output_residual np he ht 
    first k bodies (the argument of beta_curr.clamp_min_(eps) is >= eps, i.e. the clamp is inactive).  Then the
    Lanczos vectors z_1 .. z_{k+1} of the loop are orthonormal, and the squared norm of the TRUE residual of the k-th
    iterate of every shifted system equals scale_prev_k^2: the code's scale term is the residual norm, which by
-   C11_scale_nonincreasing never grows; the iterate is the minimal-residual iterate (C11_minres_minimal_residual). *)
+   C11_scale_nonincreasing never grows.  (Behaviour at breakdown and minimality of the residual: NOT proved.) *)
 Section Orthogonality.
 Variables (Q C n : nat) (mm : cols R -> cols R) (value : option R) (shifts : qc R) (eps : R).
 Variable M : nat -> nat -> nat -> R.
@@ -292,7 +288,7 @@ move=> nb hq.
 have nb' : forall m, (m < k)%N -> no_breakdown Q C n mm value shifts eps M j rhs m.
   by move=> m hm; apply/(no_breakdown_model Q value shifts eps mm_lin hj rhs m); apply: nb.
 exact: (@minres_minimal_residual R Q C n mm value shifts eps eps_pos M mm_lin q j hq hj rhs M_sym rhs_nz k c C11_krylov
-          (fun _ => erefl) (fun _ _ => erefl) nb').
+          (fun _ _ => erefl) (fun _ _ _ => erefl) nb').
 Qed.
 
 (* the range of k in the three theorems above: orthonormal z_1..z_{k+1} need k + 1 <= n, so a clamp must become active
@@ -323,6 +319,36 @@ by move=> i hi; rewrite -(w_eq Q value shifts eps mm_lin hj rhs k hi); exact: hw
 Qed.
 
 End Orthogonality.
+
+(* the minimal-residual property about the tensor minres RETURNS (stopping rule, zero mask, normalisation by ||b|| and
+   un-normalisation included): for a column that is not a zero column, with k = o_iters = the number of loop bodies executed
+   (if no breakdown happened during them), the returned solution of every shift has the smallest residual among all vectors
+   sum_{m<k} c_m (value K)^m b  of the Krylov space of the UNNORMALISED rhs column b *)
+Theorem C11_minres_output_minimal (S : mr_settings R) (g : mr_args R) (M : nat -> nat -> nat -> R) q j (c : nat -> R) :
+  g_pre g = None -> 0 < g_eps g -> 0 < s_zero_thr S ->
+  (forall X j i, (j < size (g_rhs g))%N -> (i < g_n g)%N ->
+     cg2 AR (g_mm g X) j i = \sum_(l < g_n g) M j i l * cg2 AR X j l) ->
+  (forall j i l, M j i l = M j l i) ->
+  (q < shifts_Q g)%N -> (j < size (g_rhs g))%N -> ~~ rhs_col_is_zero AR S g j ->
+  let u := mr_prepare AR S g in
+  let o := minres AR S g in
+  let k := o_iters o in
+  let sh := shifts_tab AR g in
+  (forall m, (m < k)%N ->
+     C11_no_breakdown (shifts_Q g) (size (g_rhs g)) (g_n g) (g_mm g) (g_value g) sh (g_eps g) j (u_rhs u) m) ->
+  \sum_(i < g_n g) (cg2 AR (g_rhs g) j i
+                    - C11_shifted_op (g_n g) (g_value g) sh M j q (fun l => xget AR (o_sol o) q j l) i) ^+ 2
+  <= \sum_(i < g_n g) (cg2 AR (g_rhs g) j i
+                       - C11_shifted_op (g_n g) (g_value g) sh M j q
+                           (fun l => \sum_(m < k) c m * C11_krylov (g_n g) (g_value g) M j (g_rhs g) m l) i) ^+ 2.
+Proof.
+move=> np he ht hl hs hq hj hnz /= nb.
+apply: (@minres_output_minimal R S g M np he ht hl hs q j c (C11_krylov (g_n g) (g_value g) M j (g_rhs g)) hq hj hnz
+          (fun _ => erefl) (fun _ _ => erefl)).
+move=> m hm.
+apply/(no_breakdown_model (shifts_Q g) (g_value g) (shifts_tab AR g) (g_eps g) hl hj (u_rhs (mr_prepare AR S g)) m).
+exact: nb.
+Qed.
 
 (* the hypotheses of Section Orthogonality are satisfiable, and so is the exact-breakdown hypothesis: K = [[0,1],[1,0]]
    (symmetric, indefinite), b^ = e_1, one shift, eps = 1.  Then z_1 = e_1, z_2 = e_2: no breakdown at body 0, so the theorems
